@@ -486,7 +486,16 @@ def run(rep):
         rep.lost("T-CONJ", "T-CONJ/parse_identifier", "parser::parse_identifier")
     else:
         s = show(pi.body)
-        rep.check(sequence_is_or(pi), "T-CONJ", "T-CONJ/sequence-is-or", pi.sp, "a sequence of mappings is the or-group of its entries in order", "")
+        import keymodel as _km
+        srows, sun = _km.evaluate_sequence(F, pi)
+        if srows is None:
+            rep.note("sequence model not applicable (%s); structural rule decides" % sun)
+            rep.check(sequence_is_or(pi), "T-CONJ", "T-CONJ/sequence-is-or", pi.sp, "a sequence of mappings is the or-group of its entries in order", "model: %s" % sun)
+        else:
+            sbad = [r for r in srows if not r[3]]
+            rep.check(not sbad, "T-CONJ", "T-CONJ/sequence-is-or", pi.sp,
+                      "a sequence is Ok(or-group of its parsed entries in order) iff it is non-empty, holds only mappings and every entry parses (%d model sequences)" % len(srows),
+                      None if not sbad else "entries %s failing %s -> %s, expected %s" % (["mapping" if x else "other" for x in sbad[0][0][0]], list(sbad[0][0][1]), str(sbad[0][2])[:80], str(sbad[0][1])[:80]))
         m = unblock(pi.body)
         top = [pat_str(a["pat"]) for a in m["arms"]] if m.get("k") == "Match" else []
         rep.check(top == ["&Value::Mapping($m)", "&Value::Sequence($s)", "_"], "T-CONJ", "T-CONJ/identifier-kinds", pi.sp, "an identifier is a mapping or a sequence of mappings; anything else is an error", str(top))
